@@ -259,6 +259,11 @@ func (d *Decoder) Write(p []byte) (n int, err error) {
 	}
 
 	for len(d.buf) > 0 {
+		// RFC 7541, sec 4.2: a header block may begin with more than
+		// one dynamic table size update (the smallest size reached
+		// since the last block, then the final size). Only a field
+		// representation ends the beginning of the block.
+		isSizeUpdate := d.buf[0]&224 == 32
 		err = d.parseHeaderFieldRepr()
 		if err == errNeedMore {
 			// Extra paranoia, making sure saveBuf won't
@@ -277,7 +282,9 @@ func (d *Decoder) Write(p []byte) (n int, err error) {
 			d.saveBuf.Write(d.buf)
 			return len(p), nil
 		}
-		d.firstField = false
+		if !isSizeUpdate {
+			d.firstField = false
+		}
 		if err != nil {
 			break
 		}
